@@ -28,6 +28,7 @@ import (
 	"github.com/apmckinlay/gsuneido/db19"
 	"github.com/apmckinlay/gsuneido/db19/index"
 	"github.com/apmckinlay/gsuneido/db19/meta"
+	"github.com/apmckinlay/gsuneido/db19/meta/schema"
 	lib "github.com/apmckinlay/gsuneido/util/zzverif"
 )
 
@@ -688,6 +689,178 @@ func (g *c21gen) insert(tr *lib.Trace) {
 	}
 }
 
+
+// ---- corpus: deterministic scripted histories for classes that depend on a rare random history
+// (a request that is rejected only by the final validation, after the foreign key bookkeeping ran;
+// foreign-key checked deletes afterwards). Direct oracles only (derived `_lower!` columns are not in
+// the Lean model, so nothing is replayed): schema_wf, rejected_is_noop, data_unchanged, and the
+// generic foreign key semantics: with `block` links a delete of a target row is refused exactly
+// when a row references it.
+// "!" = action in its own transaction; "?del <table> <col> <val>" = probe delete (rolled back).
+
+var c21corpusScripts = map[string][]string{
+	"rejected-by-final-validation": {
+		"create hdr (a,b) key(a)",
+		"create two (e,a,f,g,g_lower!) key(e) index(f) index(a) in hdr",
+		"!insert { a: 1 } into hdr", "!insert { a: 2 } into hdr",
+		"!insert { e: 5, a: 1, f: 2, g: 'x' } into two",
+		"alter two drop (g) index(f)", // rejected: g_lower! still needs g
+		"?del hdr a 1", "?del hdr a 2",
+		"alter two drop (g_lower!) index(f)",
+		"?del hdr a 1", "?del hdr a 2",
+		"alter two drop (q)", "alter two drop index(e)", "alter two drop key(e)",
+		"?del hdr a 1", "?del hdr a 2",
+	},
+	"two-fks-same-target-alter": {
+		"create hdr (a,b) key(a)",
+		"create lin (k,x,y,z) key(k) index(z) index(x) in hdr(a) index(y) in hdr(a)",
+		"!insert { a: 1 } into hdr", "!insert { a: 2 } into hdr", "!insert { a: 3 } into hdr",
+		"!insert { k: 1, x: 1, y: 2 } into lin",
+		"alter lin rename x to xx",
+		"?del hdr a 1", "?del hdr a 2", "?del hdr a 3",
+		"alter lin drop index(z)",
+		"?del hdr a 1", "?del hdr a 2", "?del hdr a 3",
+		"ensure lin (k,xx,y,z,w) key(k) index(xx) in hdr(a) index(y) in hdr(a) index(w)",
+		"?del hdr a 1", "?del hdr a 2", "?del hdr a 3",
+		"alter lin drop index(xx)",
+		"?del hdr a 1", "?del hdr a 2", "?del hdr a 3",
+	},
+	"selfref-drop-index": {
+		"create tb (a,b,c) key(a) index(b) in tb(a) index(c)",
+		"!insert { a: 1 } into tb", "!insert { a: 2, b: 1, c: 2 } into tb",
+		"alter tb drop index(b)",
+		"?del tb a 2", "?del tb a 1",
+	},
+}
+
+// c21refCount: number of rows of block-mode referencing tables whose single-column foreign key has value val
+func c21blockRefs(db *db19.Database, table, col, val string) int {
+	rt := db.NewReadTran()
+	n := 0
+	for _, ts := range rt.GetAllSchema() {
+		for i := range ts.Indexes {
+			ix := &ts.Indexes[i]
+			fkc := ix.Fk.Columns
+			if len(fkc) == 0 {
+				fkc = ix.Columns
+			}
+			if ix.Fk.Table != table || ix.Fk.Mode&schema.CascadeDeletes != 0 || len(ix.Columns) != 1 ||
+				len(fkc) != 1 || fkc[0] != col {
+				continue
+			}
+			fld := slices.Index(ts.Columns, ix.Columns[0])
+			it := index.NewOverIter(ts.Table, 0)
+			for it.Next(rt); !it.Eof(); it.Next(rt) {
+				_, off := it.Cur()
+				rec := rt.GetRecord(off)
+				if fld >= 0 && fmt.Sprint(rec.GetVal(fld)) == val {
+					n++
+				}
+			}
+		}
+	}
+	return n
+}
+
+func c21runCorpus(tr *lib.Trace, path string) {
+	names := make([]string, 0, len(c21corpusScripts))
+	for n := range c21corpusScripts {
+		names = append(names, n)
+	}
+	sort.Strings(names)
+	for _, name := range names {
+		os.Remove(path)
+		var db *db19.Database
+		var err error
+		c21opens++
+		if msg := lib.Catch(func() { db, err = db19.CreateDatabase(path) }); msg != "" || err != nil {
+			tr.Fail("c21-create-fail", fmt.Sprint("CreateDatabase: ", msg, err))
+			return
+		}
+		db19.StartConcur(db, time.Hour)
+		g := &c21gen{db: db}
+		hist := []string{"corpus " + name}
+		fail := func(sig, desc string) {
+			tr.Fail(sig, desc+" || history: "+strings.Join(hist, " ; "))
+			tr.Count("F " + sig)
+		}
+		tr.Count("corpus script")
+	script:
+		for _, cmd := range c21corpusScripts[name] {
+			switch {
+			case strings.HasPrefix(cmd, "!"):
+				e := lib.Catch(func() {
+					ut := db.NewUpdateTran()
+					defer ut.Abort()
+					DoAction(&core.Thread{}, ut, cmd[1:])
+					if s := ut.Complete(); s != "" {
+						panic(s)
+					}
+				})
+				hist = append(hist, cmd[1:]+c21errSuffix(e))
+			case strings.HasPrefix(cmd, "?del "):
+				f := strings.Fields(cmd)
+				refs := c21blockRefs(db, f[1], f[2], f[3])
+				e := lib.Catch(func() {
+					ut := db.NewUpdateTran()
+					defer ut.Abort() // probe only
+					DoAction(&core.Thread{}, ut, fmt.Sprintf("delete %s where %s = %s", f[1], f[2], f[3]))
+				})
+				blocked := strings.Contains(e, "blocked by foreign key")
+				hist = append(hist, fmt.Sprintf("probe delete %s where %s = %s (%d blocking references)%s", f[1], f[2], f[3], refs, c21errSuffix(e)))
+				if e != "" && !blocked {
+					continue // e.g. the table or column is gone
+				}
+				if blocked != (refs > 0) {
+					fail("c21-fk-block-semantics", fmt.Sprintf(
+						"delete %s where %s = %s: blocked=%v but %d rows reference it through block foreign keys",
+						f[1], f[2], f[3], blocked, refs))
+					break script
+				}
+			default:
+				beforeDump := c21dump(g.schemas())
+				beforeTexts := c21texts(db)
+				beforeScan, bad := c21scan(db)
+				if bad != "" {
+					fail("c21-index-scan", bad)
+					break script
+				}
+				e := lib.Catch(func() { DoAdmin(db, cmd, nil) })
+				hist = append(hist, cmd+c21errSuffix(e))
+				schemas := g.schemas()
+				if sig, desc := c21wf(schemas); sig != "" {
+					fail(sig, desc)
+					break script
+				}
+				afterScan, bad := c21scan(db)
+				if bad != "" {
+					fail("c21-index-scan", bad)
+					break script
+				}
+				if e != "" {
+					if dump := c21dump(schemas); dump != beforeDump || c21mapstr(c21texts(db)) != c21mapstr(beforeTexts) {
+						fail("c21-rejected-changed", "metadata changed by a rejected request: "+beforeDump+" -> "+dump)
+						break script
+					}
+					if c21mapstr(afterScan) != c21mapstr(beforeScan) {
+						fail("c21-index-scan", "rows changed by a rejected request")
+						break script
+					}
+				}
+			}
+		}
+		lib.Catch(func() { db.Close() })
+	}
+	os.Remove(path)
+}
+
+func c21errSuffix(e string) string {
+	if e == "" {
+		return ""
+	}
+	return " => ERR " + e
+}
+
 func TestVerifC21Admin(t *testing.T) {
 	tr := lib.Open()
 	defer tr.Close()
@@ -701,6 +874,7 @@ func TestVerifC21Admin(t *testing.T) {
 		scratch = t.TempDir()
 	}
 	path := filepath.Join(scratch, "c21.db")
+	c21runCorpus(tr, path)
 	for h := 0; h < nhist; h++ {
 		if c21opens+2*steps+2 > c21openBudget {
 			tr.Count("stopped: mmap budget of the process reached")
